@@ -6,6 +6,8 @@ cd /repo
 if [ -n "$(git status --short)" ]; then echo "REPO DIRTY: $(git status --short | head -3)"; exit 3; fi
 git apply "$patch" || { echo "patch does not apply"; exit 3; }
 cd /verif
+export VERIF_EVIDENCE_DIR=/dev/shm/seedtest-evidence VERIF_REPLAY_DIR=/dev/shm/seedtest-replays
+mkdir -p $VERIF_EVIDENCE_DIR $VERIF_REPLAY_DIR
 out=$(./check $prop $tier 2>&1 | grep -v conda | tail -4)
 rc=$?
 echo "$out"
